@@ -31,6 +31,8 @@ TABLES = {
 MEMBERS = 'resource_members_v2'
 # only workflow definitions are shareable in the property statement
 SHARE_TYPE = {'workflow_definitions_v2': 'workflow'}
+REFS = [('workflow_id', 'workflow_definitions_v2'),
+        ('code_source_id', 'code_sources')]
 VERB = {'delete': 'deleted', 'modify': 'modified'}
 
 
@@ -135,10 +137,9 @@ def judge(pre, post, caller, returned_ids=(), leaked_marks=(), required=None,
     for rid in sorted(set(returned_ids) | set(leaked_marks)):
         t, row = find_row(pre, rid)
         if row is None:
-            t, row = find_row(post, rid)
-            if row is None:
-                continue
-        if not visible(pre if rid in pre[t] else post, t, row, caller):
+            # a row created by this very call: covered by rule 3
+            continue
+        if not visible(pre, t, row, caller):
             out.append(('read-' + _kind(pre, t, row, caller),
                         '%s/%s owned by %s scope=%s reached by %s (%s)' % (
                             t, rid, row['project_id'], row['scope'],
@@ -196,4 +197,16 @@ def judge(pre, post, caller, returned_ids=(), leaked_marks=(), required=None,
                 out.append(('insert-foreign-owner',
                             'new %s/%s has project_id=%r, caller is %s' % (
                                 t, i, row.get('project_id'), caller.project)))
+            # 4. a new row may only be built on definitions the caller sees
+            for col, rt in REFS:
+                ref = row.get(col)
+                if ref and ref in pre.get(rt, {}) and t != MEMBERS and \
+                        not visible(pre, rt, pre[rt][ref], caller):
+                    out.append(('use-' + _kind(pre, rt, pre[rt][ref], caller),
+                                'new %s/%s of %s uses %s/%s owned by %s '
+                                'scope=%s (%s)' % (
+                                    t, i, caller.label, rt, ref,
+                                    pre[rt][ref]['project_id'],
+                                    pre[rt][ref]['scope'],
+                                    relation(pre, rt, pre[rt][ref], caller))))
     return out
